@@ -77,6 +77,11 @@ fn main() {
             let id = args[2].clone();
             let ctx = make_ctx(&id, Tier::Thorough, true);
             install_traps(&id, &ctx.verif.join("failures"));
+            {
+                let limit = std::env::var("HV_CASE_TIMEOUT").ok().and_then(|s| s.parse().ok()).unwrap_or(900u64);
+                let arithmetic = matches!(id.as_str(), "C05" | "C06" | "C07" | "C09");
+                start_hang_watchdog(&id, &ctx.verif.join("failures"), std::time::Duration::from_secs(limit), arithmetic);
+            }
             // raw libFuzzer artifact (not JSON): decode the bytes exactly as the fuzz target does
             let raw = std::fs::read(&args[3]).unwrap_or_default();
             let is_json = serde_json::from_slice::<Value>(&raw).map(|v| v.get("case").is_some()).unwrap_or(false);
@@ -152,7 +157,10 @@ fn main() {
             let ctx = make_ctx(&id, tier, false);
             install_traps(&id, &ctx.verif.join("failures"));
             let limit = std::env::var("HV_CASE_TIMEOUT").ok().and_then(|s| s.parse().ok()).unwrap_or(900u64);
-            start_hang_watchdog(&id, &ctx.verif.join("failures"), std::time::Duration::from_secs(limit));
+            // C05/C06/C07/C09: bounded in-process arithmetic, microseconds per case - not returning IS the failure;
+            // everywhere else a stuck case is harness trouble (exit 2)
+            let arithmetic = matches!(id.as_str(), "C05" | "C06" | "C07" | "C09");
+            start_hang_watchdog(&id, &ctx.verif.join("failures"), std::time::Duration::from_secs(limit), arithmetic);
             let code = run_check(&ctx);
             cleanup(&ctx);
             mark_finished();
